@@ -27,6 +27,8 @@ for i in range(1, 21):
         sid = f"{pid}-{dst_l}"
         if sid not in ALL:
             print("no metadata for", sid); continue
+        if "not kept" in ALL[sid][0]:
+            print("not kept:", sid); continue
         t = tests.get((pid, src_l))
         if not t or not t.startswith("150 passed"):
             print("SKIP", sid, "tests:", t); continue
